@@ -69,3 +69,45 @@ Example C11_clone_wf_hyps :
   wf_b all_classes ex_open_num = true
   /\ wf_b all_classes (clone all_classes 9 ex_fresh ex_open_num) = true.
 Proof. vm_compute. auto. Qed.
+
+(* ---- copy.deepcopy of a node-list wrapper (RepeatedNodeWrapper.__deepcopy__): WholeField.v -------------------------
+   The copy is a new base-class wrapper with NO update handlers around a new free-standing Repeated with the same items;
+   the original is untouched.  In every reachable heap two different wrappers never share a Repeated, and a list
+   operation through one of them (or through any view registered on it) leaves the other wrapper - its handler caches -
+   and its list as they were: edits of the copy never notify views of the original and vice versa, at any later time. *)
+From AB Require Import Prelude PySeq Views WholeField WholeFieldProofs.
+
+Theorem C11_wrapper_copy_independent :
+  (forall h w h' w', Inv h -> copy_wrapper VRepaired h w = (h', Ok (RW w')) ->
+     Inv h'
+     /\ exists W R W' R',
+          WholeField.lookup w (h_wrps h) = Some W /\ WholeField.lookup (w_rep W) (h_reps h) = Some R
+          /\ WholeField.lookup w (h_wrps h') = Some W /\ WholeField.lookup (w_rep W) (h_reps h') = Some R
+          /\ WholeField.lookup w' (h_wrps h') = Some W' /\ WholeField.lookup (w_rep W') (h_reps h') = Some R'
+          /\ w' <> w /\ w_rep W' <> w_rep W
+          /\ w_views W' = [] /\ w_inter W' = false /\ r_items R' = r_items R /\ r_spans R' = true /\ r_live R' = true)
+  /\ (forall h w1 w2 W1 W2 o,
+        Inv h -> WholeField.lookup w1 (h_wrps h) = Some W1 -> WholeField.lookup w2 (h_wrps h) = Some W2 -> w1 <> w2 ->
+        w_rep W1 <> w_rep W2
+        /\ WholeField.lookup w2 (h_wrps (fst (edit h w1 o))) = Some W2
+        /\ WholeField.lookup (w_rep W2) (h_reps (fst (edit h w1 o))) = WholeField.lookup (w_rep W2) (h_reps h))
+  /\ (forall its ops, Inv (wrun VRepaired (init_heap its) ops)).
+Proof.
+  split; [exact wrapper_copy_independent|]. split; [exact wrappers_independent|].
+  intros its ops. apply wrun_inv, init_inv.
+Qed.
+
+(* seeded regression C11-m10 (the copy of an EMPTY list wraps the original Repeated): an append through the "copy"
+   lands in the original's list and the original's views are not told *)
+Theorem C11_wrapper_copy_share_empty_refuted :
+  exists its ops, ~ Agree (wrun VShareEmptyCopy (init_heap its) ops)
+    /\ exists W W', WholeField.lookup 1 (h_wrps (wrun VShareEmptyCopy (init_heap its) ops)) = Some W
+         /\ WholeField.lookup 2 (h_wrps (wrun VShareEmptyCopy (init_heap its) ops)) = Some W' /\ w_rep W' = w_rep W.
+Proof. exact share_empty_copy_refuted. Qed.
+
+(* non-vacuity: the copy (wrapper 5 around Repeated 4) of transaction 1's list, edited on both sides *)
+Example C11_wrapper_copy_instance :
+  let h := wrun VRepaired (init_heap ex_its) (ex_read ++ [WCopy 3; WEdit 5 (RAppend (mkelem 1 0 9)); WEdit 3 (RPop 0)]) in
+  option_map r_items (WholeField.lookup 4 (h_reps h)) = Some [mkelem 2 0 3; mkelem 1 0 4; mkelem 1 0 9]
+  /\ option_map r_items (WholeField.lookup 1 (h_reps h)) = Some [mkelem 1 0 4].
+Proof. vm_compute. split; reflexivity. Qed.
